@@ -67,7 +67,9 @@ def build_harness(feats):
     bindir = os.path.join(HARNESS, "bin")
     os.makedirs(bindir, exist_ok=True)
     dst = os.path.join(bindir, "vh-" + key)
-    shutil.copy2(src, dst)
+    tmp = dst + ".tmp%d" % os.getpid()
+    shutil.copy2(src, tmp)
+    os.replace(tmp, dst)
     log("built harness [%s] in %.1fs" % (key, time.time() - t0))
     return dst
 
